@@ -820,7 +820,7 @@ def _command_line_arguments(args):
     ag_args = {}
     for k, v in vars(args).items():
         # ignored arguments
-        if k in excluded_args or v in (None, False):
+        if k in excluded_args or v is None or v is False:
             continue
 
         # convert the options to their shortname
